@@ -1133,7 +1133,60 @@ pub fn c12_binding(ctx: &Ctx) -> Acc {
     let f = |case: &Case, r: &Routed, po: &PointObs, nd: usize, acc: &mut Acc| c12_binding_point(case, r, po, nd, acc);
     let mut acc = explore(&plan, &f);
     acc.merge(c12_binding_inplace(&plan.cases));
+    acc.merge(c12_binding_free_running(&plan.cases, tier));
     acc
+}
+
+/// SUPPLEMENTARY, NOT EXHAUSTIVE (schedules chosen by the operating system): four free-running threads draw the Gamma
+/// variate of samplers with different degrees of divergence in turn; every draw is judged by the binding clause. State shared
+/// between Gamma draws inside the non-generic f64 code would have no scheduling point under the controlled scheduler.
+fn c12_binding_free_running(specs: &[CaseSpec], tier: Tier) -> Acc {
+    let st = Settings::META;
+    // up to six configurations with pairwise different dod
+    let mut cases: Vec<Case> = vec![];
+    for s in specs {
+        if cases.len() >= 6 {
+            break;
+        }
+        if let Some(c) = Case::new(s) {
+            if c.dod >= 0.05 && c.dod <= 100.0 && cases.iter().all(|o| (o.dod - c.dod).abs() > 0.2) && route(&c, &c.base_kin()).is_ok() {
+                cases.push(c);
+            }
+        }
+    }
+    if cases.len() < 2 {
+        return Acc::new();
+    }
+    let n_iter = tier.pick(1500usize, 15000);
+    let results: std::sync::Mutex<Vec<Acc>> = std::sync::Mutex::new(vec![]);
+    std::thread::scope(|sc| {
+        for t in 0..4usize {
+            let (cases, results, st) = (&cases, &results, &st);
+            sc.spawn(move || {
+                let mut acc = Acc::new();
+                let routed: Vec<Routed> = cases.iter().map(|c| route(c, &c.base_kin()).expect("built above")).collect();
+                for i in 0..n_iter {
+                    let k = (t + i) % cases.len();
+                    let case = &cases[k];
+                    let order: Vec<usize> = (0..case.g.ne()).collect();
+                    let mut x = sector_defaults(case, &order);
+                    x[2 * case.g.ne() - 2] = [0.375, 0.75, 1e-3, 0.5, 0.9][i % 5];
+                    let po = observe_point(case, &routed[k], &x, st);
+                    acc.inc("binding_free_running_executions(uncontrolled, supplementary)");
+                    c12_binding_point(case, &routed[k], &po, 0, &mut acc);
+                }
+                results.lock().unwrap().push(acc);
+            });
+        }
+    });
+    let mut total = Acc::new();
+    for a in results.into_inner().unwrap() {
+        total.merge(a);
+    }
+    for v in total.violations.iter_mut() {
+        v.what = format!("{} [four free-running threads drawing for samplers of different dod in turn; uncontrolled schedule]", v.what);
+    }
+    total
 }
 
 /// C07 (c) in the build WITHOUT any cargo feature, observed without the log: the rescaled Feynman parameters are recovered by the
